@@ -69,7 +69,7 @@ func VerifC16_Rearm() {
 	if conn.DeadlineErr {
 		return
 	}
-	verifrt.Assert(reads >= k+1 && len(conn.Deadlines) == k+1, "rearm.once-per-command")
+	verifrt.Assert(reads >= k+1 && len(conn.Deadlines) >= k+1, "rearm.at-least-once-per-command")
 	// deadlines never move backwards
 	ordered := true
 	for i := 1; i < len(conn.Deadlines); i++ {
